@@ -122,6 +122,10 @@ type Exec struct {
 	modAll   bool
 	notes    []string
 	covers   []string
+	exceptLemma string
+	prune    bool
+	probes   []probe
+	pruned   int
 }
 
 type loopInfo struct {
@@ -980,18 +984,36 @@ func (x *Exec) step(st *State, ins ssa.Instruction) {
 		x.callCommon(st, nil, d.call, d.args, &d.fn, site+"/defer", true)
 	case *ssa.If:
 		c := x.val(st, ins.Cond)
-		st2 := st.clone()
-		// true branch
-		x.assume(st, c.S)
-		x.gotoBlock(st, fr.block.Succs[0])
-		if !st.ended {
-			x.run(st)
+		feasT, feasF := true, true
+		if x.prune {
+			feasT = x.feasible(st, c.S) || x.unrollHeader(fr, fr.block.Succs[0])
+			feasF = x.feasible(st, "(not "+c.S+")") || x.unrollHeader(fr, fr.block.Succs[1])
 		}
-		fr2 := st2.top()
-		x.assume(st2, "(not "+c.S+")")
-		x.gotoBlock(st2, fr2.block.Succs[1])
-		if !st2.ended {
-			x.run(st2)
+		var st2 *State
+		if feasT && feasF {
+			st2 = st.clone()
+		} else if feasF {
+			st2 = st
+		}
+		if feasT {
+			// true branch
+			x.assume(st, c.S)
+			x.gotoBlock(st, fr.block.Succs[0])
+			if !st.ended {
+				x.run(st)
+			}
+		}
+		if feasF {
+			fr2 := st2.top()
+			x.assume(st2, "(not "+c.S+")")
+			x.gotoBlock(st2, fr2.block.Succs[1])
+			if !st2.ended {
+				x.run(st2)
+			}
+		}
+		if !feasT && !feasF {
+			// dead code under the current assumptions
+			x.endPath(st)
 		}
 		st.ended = true
 	case *ssa.Jump:
@@ -1453,4 +1475,11 @@ func isBuilderMethod(f *ssa.Function) bool {
 		t = pt.Elem()
 	}
 	return isBuilder(t)
+}
+
+// unrollHeader: the branch leads straight to the header of an unrolled loop whose budget is used up; it is kept
+// (not pruned) so that the unwinding assertion is emitted as an explicit obligation.
+func (x *Exec) unrollHeader(fr *frame, to *ssa.BasicBlock) bool {
+	li := x.loops[to.Index]
+	return fr.fn == x.fn && li != nil && li.spec != nil && li.spec.Unroll > 0 && fr.visits[to.Index] >= li.spec.Unroll
 }
